@@ -238,6 +238,13 @@ func (h *HttpServer) installStickyOnRequestNoCtx(r *http.Request, auth *AuthCont
 	// in cleanup.ReleaseLock. Same-session concurrent calls serialize
 	// here; different-session calls run in parallel.
 	entry.lock.Lock()
+	// Re-validate under the session lock: while this request was queued the
+	// previous holder may have closed the session, or a DELETE, the reaper or
+	// Shutdown may have ended it (and run the state's Close).
+	if h.stickyRegistry.get(sid, principalKeyFromAuth(auth)) != entry {
+		entry.lock.Unlock()
+		return cleanup, &SessionLostError{Reason: sessionLostNotFound}
+	}
 	sink.installResumed(entry, sid)
 	cleanup.entry = entry
 	_ = _expiresAt
